@@ -223,6 +223,7 @@ type Batch struct {
 	CaseType string   // Coq type of one case
 	ChkFn    string   // Coq function case -> bool (or case -> list N when Codes is set)
 	Codes    bool     // ChkFn returns the codes of the comparisons that failed
+	Shard    int      // cases per coqc invocation (0: default)
 	OutFn    string   // Coq function case -> model output (for diagnostics)
 	Cases    []Case
 }
@@ -275,6 +276,10 @@ func RunBatch(b *Batch, useRef bool) ([]Mismatch, error) {
 	work := filepath.Join(buildDir, "cases", b.Prop)
 	os.MkdirAll(work, 0o755)
 	n := len(b.Cases)
+	shardSize := shardSize
+	if b.Shard > 0 {
+		shardSize = b.Shard
+	}
 	nsh := (n + shardSize - 1) / shardSize
 	type shardRes struct {
 		idx   []int
